@@ -75,9 +75,19 @@ def _run(seq):
                 if not alive:
                     continue
                 victim = alive[-1] if op == 'L' else alive[0]
-                clean(f'wf/{victim}', base / victim)
+                if op.startswith('X'):          # directed histories: clean that numbered run
+                    victim = 'run' + op[1:]
+                    if victim not in alive:
+                        continue
                 link = base / 'runN'
+                link_before = os.readlink(link) if link.is_symlink() else None
+                clean(f'wf/{victim}', base / victim)
                 alive = [r for r in order if (base / r).exists()]
+                if link_before is not None and link_before != victim and (base / link_before).exists() \
+                        and (not link.is_symlink() or os.readlink(link) != link_before):
+                    # cleaning some OTHER run must leave runN where it was
+                    problems.append(dict(clause='b', step=step, cleaned=victim, runN_before=link_before,
+                                         runN=os.readlink(link) if link.is_symlink() else None))
                 if link.is_symlink():
                     tgt = os.readlink(link)
                     if not alive or tgt != alive[-1]:
@@ -110,17 +120,33 @@ def check(tier='quick', seed=0):
             n_eval += 1
             problems, tree = _run(seq)
             distinct.add(tuple(tree))
-            if problems and len(bad) < 12:
+            if problems:
                 bad.append(dict(ops=''.join(seq), problems=problems, final_tree=tree))
             if len(samples) < 3 and n == nmax and not problems:
                 samples.append(dict(ops=''.join(seq), final_tree=tree))
+    # directed long histories: two-digit run numbers (Xn = clean run n, never the highest-numbered one here)
+    for seq in (('I',) * 10 + ('X9', 'I', 'X3', 'I'), ('I',) * 11 + ('X10', 'X2', 'I', 'I'),
+                ('I',) * 3 + ('X1', 'I', 'X2', 'I')):
+        n_eval += 1
+        problems, tree = _run(seq)
+        distinct.add(tuple(tree))
+        if problems:
+            # (first in the list: the witness list is capped and the enumeration above may already have
+            # filled it with instances of the listed finding)
+            bad.insert(0, dict(ops=' '.join(seq), problems=problems, final_tree=tree))
+    # witnesses that are NOT the listed finding first; the list is capped
+    n_bad = len(bad)
+    bad.sort(key=lambda w: bool(kf_reuse_after_clean(w, None)))
+    del bad[12:]
     name = ('bounded::install / clean histories: no overwrite, runN points to the latest existing numbered run, '
             'numbers are not reused')
     rule = (f'every sequence of <= {nmax} operations from I (numbered install), N (install --run-name, at most '
             'once), L (clean latest numbered run), O (clean oldest) on the real install_workflow / clean in a '
-            'scratch HOME; distinct = distinct final directory trees')
+            'scratch HOME, plus 3 directed histories of 7-15 operations with two-digit run numbers and cleans of '
+            'runs in the middle (never the highest-numbered one); cleaning a run that runN does not point to must '
+            'leave runN alone; distinct = distinct final directory trees')
     base = dict(name=name, kind='bounded', evaluations=n_eval, distinct=len(distinct), rule=rule,
                 samples=samples, exhaustive=True)
     if bad:
-        return [dict(base, verdict='refuted', witness=bad, detail=f'{len(bad)} histories break a clause')]
+        return [dict(base, verdict='refuted', witness=bad, detail=f'{n_bad} histories break a clause')]
     return [dict(base, verdict='proved', detail=f'{n_eval} histories')]
